@@ -804,6 +804,26 @@ def run_bulk_concat(case):
         cfg = case["configs"][0]
         lengths, xyz, inv, nlog = one_bulk_load(case, cfg, files, kws, want_lengths, d, "0")
         check_bulk(lengths, xyz, want, want_lengths, "load", processes=cfg["processes"], delays=cfg["delays"])
+        # the returned block belongs to the caller: loading the same files in another order (same total shape) may not
+        # change it
+        if len(files) >= 2 and case["argmode"] != "args":
+            rev = list(files)[::-1]
+            l2, x2 = ens_load.load_as_concatenated(rev, processes=cfg["processes"], **(kws[0] if kws and kws[0] else {}))
+            check_bulk(lengths, xyz, want, want_lengths, "first result after a second load of the same shape",
+                       processes=cfg["processes"])
+            require(not np.shares_memory(np.asarray(xyz), np.asarray(x2)), "two loads returned overlapping coordinate blocks")
+        # a lengths= hint that over-states a file (e.g. unstrided lengths passed together with a stride) is either
+        # refused or ignored - never turned into a result with invented frames / wrong lengths
+        if cfg["hint"] and case["argmode"] != "args":
+            bad_hint = [int(v) for v in want_lengths]
+            bad_hint[len(bad_hint) // 2] += 1 + len(bad_hint) % 3
+            try:
+                l3, x3 = ens_load.load_as_concatenated(list(files), processes=cfg["processes"], lengths=bad_hint,
+                                                       **(kws[0] if kws and kws[0] else {}))
+            except Exception:
+                l3 = None
+            if l3 is not None:
+                check_bulk(l3, x3, want, want_lengths, "load with an over-stating lengths= hint", hint=bad_hint)
         return Info(bulk_nt(case, cfg), bulk_classes(case, cfg, inv, nlog))
     finally:
         shutil.rmtree(d, ignore_errors=True)
@@ -909,6 +929,40 @@ def exhaustive_strides(tier, shard, nshards):
     return gen()
 
 
+# --------------------------------------------------------------------------
+# very long rows (more frames than any internal read block) loaded with a stride
+
+@st.composite
+def long_stride_case(draw):
+    n_rows = draw(st.sampled_from([1, 1, 2, 3]))
+    return {"lengths": [draw(st.sampled_from([65535, 65536, 65537, 70001, 131073, 140000, 17])) for _ in range(n_rows)],
+            "stride": draw(st.sampled_from([2, 3, 5, 7, 10, 15, 64, 1000])), "dtype": draw(st.sampled_from(["int8", "int32", "float32"])),
+            "kind": draw(st.sampled_from(["ragged", "ragged", "ndarray"])), "seed": draw(st.integers(0, 2 ** 31 - 1)),
+            "elem": draw(st.sampled_from([[], [], [2]]))}
+
+
+def run_long_stride(case):
+    rng = np.random.RandomState(case["seed"])            # seed drawn by Hypothesis
+    lengths = case["lengths"] if case["kind"] == "ragged" else case["lengths"][:1]
+    rows = [(rng.randint(0, 100, size=[L] + list(case["elem"]))).astype(case["dtype"]) for L in lengths]
+    s = case["stride"]
+    d = mktmp()
+    try:
+        path = os.path.join(d, "long.h5")
+        ra.save(path, ra.RaggedArray([r.copy() for r in rows]) if case["kind"] == "ragged" else rows[0].copy())
+        got = ra.load(path, stride=s)
+        want = [r[::s] for r in rows]
+        check_rows(got, want, "load(stride=%d) of rows with %s frames" % (s, lengths), allow_ndarray_for_single=True)
+        full = ra.load(path)
+        check_rows(full, rows, "full load of rows with %s frames" % (lengths,), allow_ndarray_for_single=True)
+        big = max(lengths) > 65536 and (65536 % s != 0)
+        return Info(big, ["long_kind=" + case["kind"], "long_rows=%d" % len(lengths), "long_stride=%d" % s,
+                          "beyond_64k_and_stride_not_dividing=%s" % big],
+                    key=[lengths, s, case["dtype"], case["kind"], case["seed"], case["elem"]])
+    finally:
+        shutil.rmtree(d, ignore_errors=True)
+
+
 CLAUSES = [
     Clause("roundtrip", roundtrip_case(), run_roundtrip, quick=320, thorough=3000,
            exhaustive=exhaustive_rowcounts),
@@ -916,6 +970,8 @@ CLAUSES = [
            doc="save over a file that already holds an earlier (larger / differently tagged) save, then load"),
     Clause("stride", ragged_case(min_rows=2, with_stride=True), run_stride, quick=240, thorough=3000,
            exhaustive=exhaustive_strides),
+    Clause("stride_long_rows", long_stride_case(), run_long_stride, quick=16, thorough=200,
+           doc="rows of 65535..140000 frames saved and loaded with strides 2..1000 (== slicing the full load)"),
     Clause("stride_single", single_case(), run_stride_single, quick=200, thorough=2000),
     Clause("keys", ragged_case(min_rows=2, with_keys=True), run_keys, quick=240, thorough=3000),
     Clause("striped_h5", striped_case(), run_striped_h5, quick=160, thorough=2000),
